@@ -5,7 +5,7 @@ Every label, invariant, initialiser and argument carries a site-unique
 constant so that any mis-attachment shows in the comparison."""
 import xmlgen as X
 
-GDECL = "int g1 = 901; int g2; int ga; int gb; int gc; clock gx; chan c; broadcast chan bc;"
+GDECL = "int g1 = 901; int g2; int ga; int gb; int gc; clock gx; chan c; broadcast chan bc; clock gxs[2]; clock gys[2];"
 
 
 class Loc:
@@ -22,6 +22,7 @@ class Edge:
     def __init__(self, src, dst, ctrl=None, select=None, guard=None, sync=None, assign=None, prob=None, order=0):
         self.src, self.dst, self.ctrl = src, dst, ctrl       # ("L", i) / ("B", j)
         self.select, self.guard, self.sync, self.assign, self.prob, self.order = select, guard, sync, assign, prob, order
+        self.guardstyle = 0  # 1: modulo operators in the guard text
         self.selstyle = 0    # 0: `s : int[0,K]`   1: two binders   2: the binder shadows the global g2   3: ... the global clock gx
 
 
@@ -63,7 +64,10 @@ def params_text(ps):
 
 
 # ---- label texts and the trees they must become -----------------------------------------------------
-def t_guard(k):
+def t_guard(k, style=0):
+    if style == 1:    # modulo with operands whose names start like printf conversions: hazardous for anything that formats label text
+        return ("g1 % ga == {0} && g2 % gc != 1".format(k % 7),
+                "(AND (EQ (MOD (IDENTIFIER g1) (IDENTIFIER ga)) (CONSTANT:INT %d)) (NEQ (MOD (IDENTIFIER g2) (IDENTIFIER gc)) (CONSTANT:INT 1)))" % (k % 7))
     if k % 2 == 0:   # every other guard needs XML escaping (<, &&)
         return ("g1 == %d && g2 < %d" % (k, k),
                 "(AND (EQ (IDENTIFIER g1) (CONSTANT:INT %d)) (LT (IDENTIFIER g2) (CONSTANT:INT %d)))" % (k, k))
@@ -76,6 +80,14 @@ def t_inv(k, style=0):
     le = lambda v, c: "(LE (IDENTIFIER %s) (CONSTANT:INT %d))" % (v, c)      # noqa: E731
     if style == 1:
         return "gx <= 1 && g2 <= %d" % k, "(AND (CONSTANT:INT 1) (AND %s %s))" % (le("gx", 1), le("g2", k))
+    fa = "(FORALL (IDENTIFIER qi) %s)"
+    rate0 = "(EQ (RATE (ARRAY (IDENTIFIER gxs) (IDENTIFIER qi))) (CONSTANT:INT 0))"
+    if style == 3:    # a universally quantified conjunction with a clock rate inside, after an ordinary bound
+        return ("gx <= %d && forall (qi : int[0,1]) (gxs[qi]' == 0 && gys[qi] <= 5)" % k,
+                "(AND (AND (CONSTANT:INT 1) %s) %s)" % (le("gx", k), fa % ("(AND %s (LE (ARRAY (IDENTIFIER gys) (IDENTIFIER qi)) (CONSTANT:INT 5)))" % rate0)))
+    if style == 4:    # ... and before one
+        return ("(forall (qi : int[0,1]) gxs[qi]' == 0) && gx <= %d" % k,
+                "(AND (AND (CONSTANT:INT 1) %s) %s)" % (fa % rate0, le("gx", k)))
     if style == 2:
         return ("g1 <= 1 && gx <= 11 && g2 <= %d" % k,
                 "(AND (CONSTANT:INT 1) (AND (AND %s %s) %s))" % (le("g1", 1), le("gx", 11), le("g2", k)))
@@ -138,7 +150,7 @@ def render_xml(m, queries=None):
         for e in t.edges:
             trs.append(X.transition(node_id(t, e.src), node_id(t, e.dst),
                                     select=t_select(e.select, e.selstyle)[0] if e.select is not None else None,
-                                    guard=t_guard(e.guard)[0] if e.guard is not None else None,
+                                    guard=t_guard(e.guard, e.guardstyle)[0] if e.guard is not None else None,
                                     sync=e.sync,
                                     assign=t_assign(e.assign, e.select is not None, e.selstyle)[0] if e.assign is not None else None,
                                     prob=t_prob(e.prob)[0] if e.prob is not None else None,
@@ -197,7 +209,7 @@ def render_xta(m, chain=True):
                 if e.select is not None:
                     body += " select %s;" % t_select(e.select, e.selstyle)[0]
                 if e.guard is not None:
-                    body += " guard %s;" % t_guard(e.guard)[0]
+                    body += " guard %s;" % t_guard(e.guard, e.guardstyle)[0]
                 if e.sync is not None:
                     body += " sync %s;" % e.sync
                 if e.assign is not None:
@@ -222,7 +234,7 @@ TRUE = "(CONSTANT:INT 1)"
 def expected(m, xml=True):
     d = {"templates": [], "processes": [], "instances": [], "globals_tail": []}
     d["globals_tail"] = [["g1", "(CONSTANT:INT 901)"], ["g2", "()"], ["ga", "()"], ["gb", "()"], ["gc", "()"], ["gx", "()"],
-                         ["c", "()"], ["bc", "()"]]
+                         ["c", "()"], ["bc", "()"], ["gxs", "()"], ["gys", "()"]]
     if m.gextra is not None:
         d["globals_tail"].append(["gextra", "(CONSTANT:INT %d)" % m.gextra])
     tp = {}
@@ -231,7 +243,7 @@ def expected(m, xml=True):
               "params": [[n, PARAM_TYPE[k]] for k, n in t.params],
               "unbound": len(t.params),
               "locals": ([["l1", "(CONSTANT:INT %d)" % t.locals]] if t.locals is not None else []) + [list(x) for x in t.xlocals],
-              "locations": [[i, l.sym(), l.kind, t_inv(l.inv, l.invstyle)[1] if l.inv is not None else "()",
+              "locations": [[i, l.sym(), l.kind, conjuncts(t_inv(l.inv, l.invstyle)[1]) if l.inv is not None else "()",
                              t_rate(l.rate)[1] if l.rate is not None else "()"] for i, l in enumerate(t.locs)],
               "branchpoints": [[j, "_" + b] for j, b in enumerate(t.bps)],
               "init": t.locs[t.init].sym() if t.locs else None,
@@ -245,7 +257,7 @@ def expected(m, xml=True):
                 "dstb": node_sym(t, e.dst) if e.dst[0] == "B" else None,
                 "control": e.ctrl is not False,
                 "select": t_select(e.select, e.selstyle)[1] if e.select is not None else "[]",
-                "guard": t_guard(e.guard)[1] if e.guard is not None else TRUE,
+                "guard": t_guard(e.guard, e.guardstyle)[1] if e.guard is not None else TRUE,
                 "sync": t_sync(e.sync)[1] if e.sync is not None else "()",
                 "assign": t_assign(e.assign, e.select is not None, e.selstyle)[1] if e.assign is not None else TRUE,
                 "prob": t_prob(e.prob)[1] if e.prob is not None else TRUE})
@@ -287,7 +299,8 @@ def project(dump, m):
     for t in dump["templates"]:
         tj = {"name": t["name"], "params": [[p["name"], p["type"]] for p in t["params"]], "unbound": t["unbound"],
               "locals": [[v["name"], v["init"]] for v in t["decl"]["vars"]],
-              "locations": [[l["nr"], l["name"], l["flags"], l["inv"], l["exp_rate"]] for l in t["locations"]],
+              "locations": [[l["nr"], l["name"], l["flags"], conjuncts(l["inv"]) if l["inv"] != "()" else "()", l["exp_rate"]]
+                            for l in t["locations"]],
               "branchpoints": [[b["nr"], b["name"]] for b in t["branchpoints"]],
               "init": t["init"], "edges": []}
         for e in t["edges"]:
@@ -301,6 +314,34 @@ def project(dump, m):
         d["processes"].append({"name": p["name"], "templ": p["templ"], "unbound": p["unbound"],
                                "params": [q["name"] for q in p["params"]], "mapping": p["mapping"], "priority": p["priority"]})
     return d
+
+
+def conjuncts(sx):
+    """the top-level conjuncts of an invariant s-expression, the neutral `1` dropped, sorted (the type checker re-associates
+    the conjunction when it separates clock rates)"""
+    out = []
+
+    def rec(t):
+        t = t.strip()
+        if t.startswith("(AND "):
+            depth, start, parts = 0, 5, []
+            for i in range(5, len(t) - 1):
+                ch = t[i]
+                if ch == "(":
+                    depth += 1
+                elif ch == ")":
+                    depth -= 1
+                    if depth == 0:
+                        parts.append(t[start:i + 1])
+                        start = i + 2
+            if len(parts) == 2 and start >= len(t) - 1:
+                for q in parts:
+                    rec(q)
+                return
+        if t != "(CONSTANT:INT 1)":
+            out.append(t)
+    rec(sx)
+    return "CONJ{" + " & ".join(sorted(out)) + "}"
 
 
 def diff(a, b, path=""):
@@ -375,7 +416,7 @@ def build(choose, common=False, bp_base=True):
                 kind = (["", "U", "C"] if li != 2 else ["C", "", "U"])[choose(3, "%s.L%d.kind" % (t.name, li))]
                 l.inv, l.rate, l.kind = inv, rate, kind
                 if inv is not None:
-                    l.invstyle = choose(3, "%s.L%d.invstyle" % (t.name, li))
+                    l.invstyle = choose(5, "%s.L%d.invstyle" % (t.name, li))
                 if inv is not None and rate is not None:
                     l.rate_first = bool(choose(2, "%s.L%d.ratefirst" % (t.name, li)))
                 # an urgent/committed location may not carry a time invariant or a rate
@@ -439,6 +480,7 @@ def build(choose, common=False, bp_base=True):
                     e.selstyle = choose(4, tag + ".selstyle")
                 if on[1]:
                     e.guard = k + 101
+                    e.guardstyle = choose(2, tag + ".guardstyle")
                 if on[2]:
                     e.sync = ["c!", "c?", "bc!"][choose(3, tag + ".chan")]
                 if on[3]:
